@@ -19,9 +19,9 @@
 (*   wf, wat  a disturbed write call (the consumer stays): "none" | "short" the wat-th write call   *)
 (*            takes only a part of its bytes | "shortall" so does every later one | "eintr" it fails  *)
 (*            with EINTR; what the consumer gets and how delta exits must not depend on it           *)
-(* (The harness runs the scenarios in which delta starts a program and the consumer stays a second time with a program that  *)
-(* talks on stderr - a differ with tracing switched on, a wrapped command that writes 4 000 lines there first -: the          *)
-(* expectations are the same.)                                                                                               *)
+(*   noisy    the program delta starts (mode diff, wrap) talks on stderr: a differ with tracing switched on, a wrapped      *)
+(*            command that writes NoisyLines lines there before anything else.  Status and output are what they are without  *)
+(*            the talk, and what a wrapped command said on stderr arrives on delta's stderr.                                  *)
 (* The operators below say what must be observed; they are used both to enumerate the fault  *)
 (* space (MC_Pager) and to judge recorded runs (Trace_Pager).                                *)
 EXTENDS Naturals, Sequences, FiniteSets
@@ -51,6 +51,11 @@ Chosen(sc) ==
 \* (no arguments given, or the value comes from PAGER, which is shared with other programs)
 LessArgsAreDeltas(sc) ==
   Chosen(sc) = "less" /\ (sc.bare \/ (~("config" \in sc.src) /\ ~("delta" \in sc.src))) /\ (("config" \in sc.src \/ "delta" \in sc.src) \/ ~("bat" \in sc.src))
+
+\* --- a program that talks on stderr ---
+NoisyLines == 4000
+\* errLines: lines that arrived on delta's stderr.  (Status 129 - git rejected an option -: delta shows the first line only.)
+StderrOK(sc, errLines) == (sc.noisy /\ sc.mode = "wrap" /\ sc.status # 129) => errLines >= NoisyLines
 
 \* --- delivery ---
 \* got: bytes the pager received, sent: bytes delta writes for this input (reference run)
